@@ -315,7 +315,9 @@ theorem C06_string_comparisons_on_bytes (op : BinOp) (x y : Text) (h : op.isArit
 
 /-! ### floats: the SPECIAL values (session 7, `Lemmas/FloatSpecial*.lean`; audit item 9)
 
-The theorems above are for finite operands.  For ALL bit patterns each operation is characterised by a complete case table over
+The theorems above are for finite operands.  For ALL bit patterns each operation is characterised (these tables restate the model's own
+case analysis in terms of exact values `sval`/`mag`: they say WHAT THE MODEL COMPUTES on every input, in IEEE's vocabulary; that the
+host FPU computes the same is the correspondence) by a complete case table over
 (NaN, infinite, zero, sign), exactly the IEEE-754 rules: NaN propagates; `inf - inf`, `0 * inf`, `inf / inf`, `0 / 0`, `x % 0`,
 `inf % y` are NaN; `x / 0` is an infinity with the xor of the signs; `x % inf = x`; a remainder has the sign of the dividend also
 when it is zero; every comparison with a NaN is false except `!=`; `+0 == -0`; signed-zero results of sums, products, quotients. -/
@@ -328,6 +330,15 @@ theorem C06_float_add_all_cases (x y : F64.Bits) : add x y =
     else if F64R.sval x + F64R.sval y = 0 then zero (isNeg x && isNeg y)
     else ofRat (decide (F64R.sval x + F64R.sval y < 0)) (F64R.sval x + F64R.sval y).natAbs (2 ^ 1074) :=
   add_cases x y
+
+open F64 FloatSpecial in
+theorem C06_float_sub_all_cases (x y : F64.Bits) : sub x y =
+    if isNaN x || isNaN y then canonNaN
+    else if isInf x && isInf y then (if isNeg x = isNeg y then canonNaN else inf (isNeg x))
+    else if isInf x then inf (isNeg x) else if isInf y then inf (!isNeg y)
+    else if F64R.sval x - F64R.sval y = 0 then zero (isNeg x && !isNeg y)
+    else ofRat (decide (F64R.sval x - F64R.sval y < 0)) (F64R.sval x - F64R.sval y).natAbs (2 ^ 1074) :=
+  sub_cases x y
 
 open F64 FloatSpecial in
 theorem C06_float_mul_all_cases (x y : F64.Bits) : mul x y =
